@@ -16,7 +16,7 @@ use std::io::Read;
 use std::time::Instant;
 
 const P: &str = "C07";
-pub const N_FILES: usize = 5;
+pub const N_FILES: usize = 6;
 
 /// The small files whose pages are damaged: points, blobs and XML spread over 2-5 pages.
 pub fn file(k: usize) -> Vec<u8> {
@@ -34,6 +34,14 @@ pub fn file(k: usize) -> Vec<u8> {
             h.snapshot()
         }
         2 => encode(&crate::scenes::scene(6), &mut Canonical, Knobs::NONE).bytes,
+        5 => {
+            // runs of identical pages (same payload, hence same checksum): constant blobs over several pages
+            let p = Program { guid: "g".into(), ops: vec![Op::Blob(vec![0u8; 3500]), Op::Blob(vec![0xA5u8; 3500])], ..Default::default() };
+            let dev = Dev::empty();
+            let h = dev.handle();
+            let _ = run_program(dev, &p, &ExecOpts::default());
+            h.snapshot()
+        }
         4 => {
             // header + one blob fill page 0 exactly: the XML section starts at physical offset 1024
             let p = Program { guid: "g".into(), ops: vec![Op::Blob(pattern(5, 956))], ..Default::default() };
@@ -299,10 +307,13 @@ pub fn poll(ctx: &Ctx) {
 /// F7: whole-file validation on files of 255..770 pages (page counts around multiples of 256,
 /// where physical and logical sizes differ by whole pages): every page damaged in turn.
 pub fn big(ctx: &Ctx) {
-    const PAGES: [usize; 6] = [255, 256, 257, 300, 513, 770];
+    const PAGES: [usize; 9] = [255, 256, 257, 300, 513, 770, 2049, 4100, 8200];
     let fi = ctx.pick("file", PAGES.len());
     let want = PAGES[fi];
-    let group = ctx.pick("page-group", want.div_ceil(16));
+    // files above 1000 pages: the first two and last two groups of 16 pages and every 32nd group
+    let all_groups = want.div_ceil(16);
+    let groups: Vec<usize> = if want <= 1000 { (0..all_groups).collect() } else { (0..all_groups).filter(|g| *g < 2 || *g + 2 >= all_groups || g % 32 == 0).collect() };
+    let group = groups[ctx.pick("page-group", groups.len())];
     // one blob sized so that the file has exactly `want` pages (XML and header need < 2 pages)
     let blob_len = (want - 2) * 1020 - 600;
     let prog = Program { guid: "g".into(), ops: vec![Op::Blob(pattern(fi as u64 + 77, blob_len))], ..Default::default() };
